@@ -7,14 +7,15 @@ EXTENDS MatrixInterp, TLC, Json
 CONSTANTS MaxToks, DoExport
 VARIABLES c
 Toks == { MLit("x "), MLit("-"), MTok("a", "", ""), MTok("a", " ", "\t"), MTok("b", "  ", ""), MTok("", "", " "), MTok("zz", "", ""),
-          MTok("a.b", "", ""), MTok("a-b", " ", " "), MTok("_", "", ""),
+          MTok("a.b", "", ""), MTok("a-b", " ", " "), MTok("_", "", ""), MTok(".a", "", ""),      \* a dimension NAMED ".a": {{matrix..a}}
           MNear("{{matrix"), MNear("{matrix}"), MNear("{{ matrixx }}"), MNear("{{matrix.}}"), MNear("{{matrix .a}}"),
           MNear("{{ matrix.a b }}"), MNear("{{Matrix}}"), MNear("{{ matrix.a }") }
 Perms == { ("a" :> "VA") @@ ("b" :> "VB"),
            ("a" :> "{{matrix.b}}") @@ ("b" :> "VB"),              \* a value that itself looks like a token
            ("a" :> "{{ matrix.a }}") @@ ("b" :> ""),
            ("" :> "ANON"), ("" :> "{{matrix}}"), ("" :> "$HOME/bin${1}$$"),
-           ("a.b" :> "DOT") @@ ("a-b" :> "DASH") @@ ("_" :> "US") }
+           ("a.b" :> "DOT") @@ ("a-b" :> "DASH") @@ ("_" :> "US"),
+           ("a" :> "VA") @@ (".a" :> "DOTA") }                    \* names that differ by a leading dot are different dimensions
 Classes == {"command", "label", "key", "envname", "envval", "pluginsrc", "plugincfgkey", "plugincfgval", "unkkey", "unkval",
             "matrixval", "adjwith", "sigvalue"}
 Init == \E n \in 1..MaxToks : \E s \in [1..n -> Toks] : \E p \in Perms : \E cl \in Classes :
